@@ -8,10 +8,16 @@ from harness.props import c03 as c03mod
 from harness.symterm import cterm, name_id
 
 
-def py_lifecycle(expr, history):
+def py_lifecycle(expr, history, shifts=None):
     """Oracle from the property text: every stateful actor receives exactly the state its own counterpart produced in
-    the training run that committed the loaded generation."""
-    ops = c03mod.flatten(expr)
+    the training run that committed the loaded generation, combined with the hyper-parameters of the current code
+    (`shifts`: action index -> how much every hyper-parameter of the code differs in that action)."""
+    base = c03mod.flatten(expr)
+    ops = base
+
+    def shifted(d):
+        return [{k: ([v[0], v[1] + d, v[2]] if isinstance(v, list) else v) for k, v in spec.items()} for spec in base]
+
     sl = ['app', 'slice', 0, None, [['app', 'srcT', 0, None, []]]]
     xa0, xt0, y0 = ['app', 'srcA', 0, None, []], ['proj', 0, sl], ['proj', 1, sl]
 
@@ -55,7 +61,8 @@ def py_lifecycle(expr, history):
         return x
 
     registry, outs = [], []
-    for action in history:
+    for k, action in enumerate(history):
+        ops = shifted((shifts or {}).get(str(k), 0))
         if action[0] == 'train':
             registry.append(train(registry[-1] if registry else []))
             outs.append({'committed': registry[-1]})
@@ -96,6 +103,10 @@ class C04(core.Prop):
             {'expr': seq(lab, a, b, probe), 'history': [['train'], ['perftrack', 0], ['apply', 0]]},
             {'expr': seq(a, t, b, probe), 'history': [['train'], ['train'], ['perftrack', 1], ['apply', 0]]},
             {'expr': seq(['op', {'apply': ['m0', 0, False], 'train': 'same'}], a, b, probe), 'history': [['train'], ['perftrack', 0]]},
+            # the code changes between training and loading: actors that restore their own hyper-parameter from the state
+            # must still run with the hyper-parameters of the current code
+            {'expr': seq(['op', {'apply': ['m0', 0, False], 'train': 'same'}], a, b, probe), 'history': [['train'], ['apply', 0], ['train'], ['apply', 1]],
+             'shift': {'1': 10, '2': 20, '3': 30}},
         ]
 
     def cases(self, rng, tier):
@@ -119,7 +130,10 @@ class C04(core.Prop):
                     history.append(['apply', rng.randrange(gens)])
                 else:
                     history.append(['perftrack', rng.randrange(gens)])
-            out.append({'expr': expr, 'history': history})
+            case = {'expr': expr, 'history': history}
+            if len(out) % 6 == 5:
+                case['shift'] = {str(k): 10 * k for k in range(1, len(history))}
+            out.append(case)
         return out
 
     def run_impl(self, cases):
@@ -129,6 +143,8 @@ class C04(core.Prop):
             return list(pool.map(impl.observe, cases))
 
     def coq_case(self, case, obs):
+        if case.get('shift'):
+            return None        # code-change histories are judged by the oracle only (the model fixes the hyper-parameters)
         if 'error' in obs:
             return '(C04.CHistory 0%nat 0%nat 0%nat (EOp (OpSpec None TNo None)) [DoApply 0%nat] nil nil)'
         # the model covers train / apply; a performance-tracking action is judged by the oracle only (it leaves the registry unchanged)
@@ -148,7 +164,7 @@ class C04(core.Prop):
     def oracle(self, case, obs):
         if 'error' in obs:
             return f"lifecycle failed: {obs['error']}"
-        want, registry = py_lifecycle(case['expr'], case['history'])
+        want, registry = py_lifecycle(case['expr'], case['history'], case.get('shift'))
         for k, (action, got, exp) in enumerate(zip(case['history'], obs['steps'], want)):
             if action[0] == 'train':
                 if got['committed'] != exp['committed']:
@@ -160,11 +176,11 @@ class C04(core.Prop):
         return None
 
     @staticmethod
-    def _perftrack_known(expr, stored):
+    def _perftrack_known(expr, stored, shift=0):
         """What the listed finding predicts: the stateful apply-path actors whose trainer hangs on BOTH head placeholders
         of the evaluated pipeline (no earlier operator touches the train path or the labels, no label actor of its own)
         drop out of the persistent list; the others are loaded by position from the front of the stored list."""
-        ops = c03mod.flatten(expr)
+        ops = [{k: ([v[0], v[1] + shift, v[2]] if isinstance(v, list) else v) for k, v in spec.items()} for spec in c03mod.flatten(expr)]
         sl = ['app', 'slice', 0, None, [['app', 'srcT', 0, None, []]]]
         x, y0 = ['proj', 0, sl], ['proj', 1, sl]
         touched, i = False, 0
@@ -184,12 +200,12 @@ class C04(core.Prop):
 
     def signature(self, case, obs, problem):
         if ' perftrack of generation' in problem:
-            want, registry = py_lifecycle(case['expr'], case['history'])
-            for action, got, exp in zip(case['history'], obs['steps'], want):
+            want, registry = py_lifecycle(case['expr'], case['history'], case.get('shift'))
+            for k, (action, got, exp) in enumerate(zip(case['history'], obs['steps'], want)):
                 if action[0] != 'perftrack':
                     if (got.get('committed'), got.get('out')) != (exp.get('committed'), exp.get('out')):
                         return None
-                elif got['out'] != exp['out'] and got['out'] != self._perftrack_known(case['expr'], registry[action[1]]):
+                elif got['out'] != exp['out'] and got['out'] != self._perftrack_known(case['expr'], registry[action[1]], (case.get('shift') or {}).get(str(k), 0)):
                     return None
             return 'C04/perftrack-persistent-shift'
         return None
